@@ -407,17 +407,110 @@ func c13InflateScope() *drv.Scope {
 		}}
 }
 
+// c13PrimScope: the three geometric primitives of the sweep (through the verif hooks) on every quadruple of the
+// sheared 3x3 lattice under every scaling of the magnitude grid, against exact rational arithmetic. The results
+// are integers computed through float64, so the tolerance is 1 unit + 2^-40 of the extent, as in the statement.
+func c13PrimScope() *drv.Scope {
+	e := enum.Esh
+	cen := e.F(1, 1)
+	xfs := append(append([]c13Xf{{"identity", 1, 0, 0}}, c13Scales...), c13Centred(cen.X, cen.Y)...)
+	nX := uint64(len(xfs))
+	lat := func(d uint64) Pt { return e.F(int64(d%3), int64(d/3)) }
+	rat := func(v int64) *big.Rat { return new(big.Rat).SetInt64(v) }
+	within := func(got int64, want *big.Rat, tol *big.Rat) bool {
+		d := new(big.Rat).Sub(rat(got), want)
+		d.Abs(d)
+		return d.Cmp(tol) <= 0
+	}
+	crossSign := func(a, b, c Pt) int { return cmpProd(b.X-a.X, c.Y-b.Y, b.Y-a.Y, c.X-b.X) }
+	return &drv.Scope{Name: "magnitude/sweep primitives (closest point, segment intersection point, segments intersect)/quadruples of the sheared 3x3 lattice", Level: 1, Size: 6561 * nX,
+		Show: func(idx uint64) any {
+			q := idx % 6561
+			return map[string]any{"points": pathLit(Path{lat(q % 9), lat(q / 9 % 9), lat(q / 81 % 9), lat(q / 729)}), "transformation": xfs[idx/6561].name}
+		},
+		Run: func(c *drv.Ctx, idx uint64) {
+			q, xf := idx%6561, xfs[idx/6561]
+			c13Prim(c, xf, xf.pt(lat(q%9)), xf.pt(lat(q/9%9)), xf.pt(lat(q/81%9)), xf.pt(lat(q/729)), rat, within, crossSign)
+			// the same quadruple with the first point one unit off its lattice position after scaling: exactly
+			// collinear triples become triples whose cross product is tiny against the products it is the difference of
+			n := xf.pt(lat(q % 9))
+			n.X++
+			c13Prim(c, xf, n, xf.pt(lat(q/9%9)), xf.pt(lat(q/81%9)), xf.pt(lat(q/729)), rat, within, crossSign)
+			c.Nontriv()
+		}}
+}
+
+func c13Prim(c *drv.Ctx, xf c13Xf, p1, p2, p3, p4 Pt, rat func(int64) *big.Rat, within func(int64, *big.Rat, *big.Rat) bool, crossSign func(a, b, c Pt) int) {
+	{
+		{
+			ext := new(big.Rat).SetInt64(40 * xf.k)
+			tol := new(big.Rat).Add(big.NewRat(1, 1), new(big.Rat).Mul(ext, new(big.Rat).SetFrac64(1, 1<<40)))
+			// closest point on segment p2-p3 to p1
+			got := clipper.VerifGetClosestPtOnSegment(p1, p2, p3)
+			c.Exec(1)
+			wx, wy := rat(p2.X), rat(p2.Y)
+			if p2 != p3 {
+				dx, dy := rat(p3.X-p2.X), rat(p3.Y-p2.Y)
+				num := new(big.Rat).Add(new(big.Rat).Mul(rat(p1.X-p2.X), dx), new(big.Rat).Mul(rat(p1.Y-p2.Y), dy))
+				den := new(big.Rat).Add(new(big.Rat).Mul(dx, dx), new(big.Rat).Mul(dy, dy))
+				t := new(big.Rat).Quo(num, den)
+				if t.Sign() < 0 {
+					t.SetInt64(0)
+				} else if t.Cmp(big.NewRat(1, 1)) > 0 {
+					t.SetInt64(1)
+				}
+				wx = new(big.Rat).Add(wx, new(big.Rat).Mul(t, dx))
+				wy = new(big.Rat).Add(wy, new(big.Rat).Mul(t, dy))
+			}
+			if !within(got.X, wx, tol) || !within(got.Y, wy, tol) {
+				c.Fail("getClosestPtOnSegment", xf.name, "%s: getClosestPtOnSegment(%v, %v, %v)=%v, exact (%s,%s)", xf.name, p1, p2, p3, got, wx.FloatString(2), wy.FloatString(2))
+			}
+			// intersection point of p1-p2 with p3-p4 (parameter clamped to the first segment)
+			ip, ok := clipper.VerifGetSegmentIntersectPt(p1, p2, p3, p4)
+			c.Exec(1)
+			dx1, dy1, dx2, dy2 := p2.X-p1.X, p2.Y-p1.Y, p4.X-p3.X, p4.Y-p3.Y
+			det := cmpProd(dy1, dx2, dy2, dx1)
+			if ok != (det != 0) {
+				c.Fail("getSegmentIntersectPt", xf.name, "%s: getSegmentIntersectPt(%v,%v,%v,%v) reports intersecting=%v, exact determinant sign %d", xf.name, p1, p2, p3, p4, ok, det)
+			} else if ok {
+				D := new(big.Rat).Sub(new(big.Rat).Mul(rat(dy1), rat(dx2)), new(big.Rat).Mul(rat(dy2), rat(dx1)))
+				N := new(big.Rat).Sub(new(big.Rat).Mul(rat(p1.X-p3.X), rat(dy2)), new(big.Rat).Mul(rat(p1.Y-p3.Y), rat(dx2)))
+				t := new(big.Rat).Quo(N, D)
+				if t.Sign() < 0 {
+					t.SetInt64(0)
+				} else if t.Cmp(big.NewRat(1, 1)) > 0 {
+					t.SetInt64(1)
+				}
+				ex := new(big.Rat).Add(rat(p1.X), new(big.Rat).Mul(t, rat(dx1)))
+				ey := new(big.Rat).Add(rat(p1.Y), new(big.Rat).Mul(t, rat(dy1)))
+				if !within(ip.X, ex, tol) || !within(ip.Y, ey, tol) {
+					c.Fail("getSegmentIntersectPt", xf.name, "%s: getSegmentIntersectPt(%v,%v,%v,%v)=%v, exact (%s,%s)", xf.name, p1, p2, p3, p4, ip, ex.FloatString(2), ey.FloatString(2))
+				}
+			}
+			// proper / inclusive intersection of the two segments
+			s1, s2, s3, s4 := crossSign(p1, p3, p4), crossSign(p2, p3, p4), crossSign(p3, p1, p2), crossSign(p4, p1, p2)
+			wantProper := s1*s2 < 0 && s3*s4 < 0
+			wantIncl := s1*s2 <= 0 && s3*s4 <= 0 && (s1 != 0 || s2 != 0 || s3 != 0 || s4 != 0)
+			g1, g2 := clipper.VerifSegsIntersect(p1, p2, p3, p4, false), clipper.VerifSegsIntersect(p1, p2, p3, p4, true)
+			c.Exec(2)
+			if g1 != wantProper || g2 != wantIncl {
+				c.Fail("segsIntersect", xf.name, "%s: segsIntersect(%v,%v,%v,%v) proper=%v inclusive=%v, exact proper=%v inclusive=%v", xf.name, p1, p2, p3, p4, g1, g2, wantProper, wantIncl)
+			}
+		}
+	}
+}
+
 func init() {
 	_ = math.Pi
 	drv.Register(&drv.Check{
 		ID:    "C13",
 		Title: "Results do not depend on coordinate magnitude within the advertised range",
 		Rule: "a finite grid of magnitudes, bracketing every power of two at which an int64 product or a float64 mantissa in the anchored routines can first overflow: translations by (2^31,0), (0,-2^40), (2^52-64,2^52-64), (-2^52,2^51+1) and scalings by 2^10, 2^20+1, 2^28, 2^31, 2^40, 3*2^50, 2^56, 2^55+1, and scalings by 2^27, 214748364, 2^31+7, 2^40, 2^55+1 followed by the translation that centres the base lattice on the origin (coordinates of both signs; a polygon filling the box [-m,m]^2), applied to every base input of: P(3,3) x every k-th of P(3,3), k coprime to 9 (sheared and axis-aligned embeddings; 4 rotating (clip type, fill rule) pairs per input) for BooleanOpPaths64; P(3,3..5) for Area64, PointInPolygon (all lattice points), SimplifyPath64; P(R5,3[,4]) for RectClipPaths64 (rectangle transformed too); simple polygons of P(4,3) for InflatePaths64 (translations only). " +
-			"Oracle: exact 128-bit winding numbers of the transformed solution at the images of base lattice points that are > 2 units from every base edge, compared with the exact reference answer of the base input (not with the library's own small-coordinate result); Area64 against exact k^2 * area; PointInPolygon against the exact base answer; SimplifyPath64: same retained vertices. non-trivial = base input with a non-empty expected region / non-zero area / crossing path",
+			"Oracle: exact 128-bit winding numbers of the transformed solution at the images of base lattice points that are > 2 units from every base edge, compared with the exact reference answer of the base input (not with the library's own small-coordinate result); Area64 against exact k^2 * area; PointInPolygon against the exact base answer; SimplifyPath64: same retained vertices; the sweep's primitives (closest point on a segment, segment intersection point, segments-intersect predicates; through the verif hooks) on every point quadruple of the 3x3 lattice under every scaling of the grid (coordinates up to 2^60.7) against exact rationals within 1 + 2^-40 of the extent. non-trivial = base input with a non-empty expected region / non-zero area / crossing path",
 		Assumptions:      []string{"finite magnitude grid, not all magnitudes", "base inputs of <= 5 vertices"},
 		RequiredCounters: []string{"boolean_inputs_with_nonempty_expected_region", "unary_paths_with_area", "rect_paths_crossing", "inflate_polygons"},
 		Scopes: func(tier string) []*drv.Scope {
-			out := []*drv.Scope{c13UnaryScope(3, enum.Esh), c13UnaryScope(4, enum.Esh), c13UnaryScope(3, enum.Eax), c13UnaryScope(4, enum.Eax), c13RectScope(3), c13InflateScope(),
+			out := []*drv.Scope{c13PrimScope(), c13UnaryScope(3, enum.Esh), c13UnaryScope(4, enum.Esh), c13UnaryScope(3, enum.Eax), c13UnaryScope(4, enum.Eax), c13RectScope(3), c13InflateScope(),
 				c13BoolScope(tier, enum.Esh), c13BoolScope(tier, enum.Eax)}
 			if tier == "thorough" {
 				out = append(out, c13UnaryScope(5, enum.Esh), c13UnaryScope(5, enum.Eax), c13RectScope(4))
